@@ -7,6 +7,7 @@ import (
 	"testing"
 
 	"free5gclib/aper"
+	"free5gclib/ngap"
 
 	"pgregory.net/rapid"
 
@@ -167,6 +168,21 @@ func c04OracleF(c ngapCase, frag bool) ev.Verdict {
 		v.Err = fmt.Errorf("%s: %s | %s", stage, detail, desc)
 		return v
 	}
+	// the decoder is not only used on conformant input: earlier in the same process it has refused truncated and
+	// damaged messages. What it then does with a conformant message must not depend on that history.
+	for k := 0; k < c.Hostile && len(rb) > 1; k++ {
+		cut := (len(rb) * (k + 1)) / (c.Hostile + 2)
+		if cut < 1 {
+			cut = 1
+		}
+		_, _, _ = libDecode(&c, append([]byte{}, rb[:cut]...))
+		bad := append([]byte{}, rb...)
+		bad[cut] ^= 0xff
+		_, _, _ = libDecode(&c, bad)
+	}
+	if c.Hostile > 0 {
+		v.Classes = append(v.Classes, "history:refused-inputs-before")
+	}
 	// (ii) canonical bytes from the independent encoder
 	d2, derr, site := libDecode(&c, append([]byte{}, rb...))
 	if site != "" {
@@ -189,6 +205,19 @@ func c04OracleF(c ngapCase, frag bool) ev.Verdict {
 	}
 	if e2 != nil || !bytes.Equal(b2, rb) {
 		return fail("re-encoding the decoded value does not reproduce the canonical bytes", fmt.Sprintf("err=%v got %x want %x", e2, trunc(b2, 32), trunc(rb, 32)))
+	}
+	// results stay what they were: the decoded value and the re-encoded bytes are still held while the codec is
+	// used for another (large) message; a result that a LATER call rewrites was never the value the bytes denote
+	interfereNGAP()
+	if d := eqv(reflect.ValueOf(val), reflect.ValueOf(d2), c.Entry); d != "" {
+		v.Key = "retained:decoded-value-changed-by-a-later-call"
+		v.Err = fmt.Errorf("the decoded value was right when Decoder returned and differs at %s after the codec was used for another message", d)
+		return v
+	}
+	if !bytes.Equal(b2, rb) {
+		v.Key = "retained:encoding-overwritten-by-a-later-call"
+		v.Err = fmt.Errorf("the bytes Encoder returned were canonical and read %x after the codec was used for another message", trunc(b2, 32))
+		return v
 	}
 	// (i) the library's own encoding
 	lb, lerr, _ := libEncode(&c)
@@ -225,6 +254,38 @@ func c04OracleF(c ngapCase, frag bool) ev.Verdict {
 func TestC04_Fragment(t *testing.T) {
 	r := ev.New(t, "C04", "TestC04_Fragment")
 	ev.Run(t, r, func(rt *rapid.T) ngapCase { return genNgapCase(rt, true) }, func(c ngapCase) ev.Verdict { return c04OracleF(c, true) })
+}
+
+var interferers [][]byte
+
+// interfereNGAP decodes and re-encodes unrelated messages of several sizes (DOWNLINK NAS TRANSPORT with NAS-PDUs of
+// 100, 1500, 3000 and 5000 octets), the way a caller serving several UEs uses the codec.
+func interfereNGAP() {
+	if interferers == nil {
+		for _, n := range []int{100, 1500, 3000, 5000} {
+			ln := func(x int) []byte {
+				if x < 128 {
+					return []byte{byte(x)}
+				}
+				return []byte{0x80 | byte(x>>8), byte(x)}
+			}
+			nas := append(ln(n), bytes.Repeat([]byte{0xee}, n)...)
+			ies := []byte{0x00, 0x00, 0x03, 0x00, 0x0a, 0x00, 0x02, 0x00, 0x01, 0x00, 0x55, 0x00, 0x02, 0x00, 0x01, 0x00, 0x26, 0x00}
+			ies = append(append(ies, ln(len(nas))...), nas...)
+			interferers = append(interferers, append(append([]byte{0x00, 0x04, 0x40}, ln(len(ies))...), ies...))
+		}
+	}
+	for _, b := range interferers {
+		b := b
+		_, _ = ev.Guard(func() error {
+			pdu, err := ngap.Decoder(append([]byte{}, b...))
+			if err != nil {
+				panic("harness: the interfering message does not decode: " + err.Error())
+			}
+			_, err = ngap.Encoder(*pdu)
+			return err
+		})
+	}
 }
 
 func TestC04_RoundTrip(t *testing.T) {
